@@ -8,4 +8,12 @@ CHECKS = {
         "whose behaviour is determined by short histories.",
    note="Trusts the 60-line reference model vf/ref/registry.py and Python dict semantics; mock plugin classes stand in for real plugins.",
    technique="runtime monitoring: recorded API histories checked against an executable reference model (bounded-exhaustive + random)"),
+ "C01": dict(category="exploration",
+   text="An optimality certificate (shapes, residual = data - matrix@clp, orthogonality resp. KKT, independent optimum from SVD lstsq resp. "
+        "exhaustive enumeration of all 2^n supports) is evaluated by an icontract postcondition on every call of both residual functions: tens of "
+        "thousands of generated (matrix, data) pairs over conditioning 1..1e10, kinetic/oscillation/stacked matrices, data classes, scales and memory "
+        "layouts, plus every internal solve of real optimisations. Tolerances are the kappa-free backward-error bound of a stable solver. "
+        "Per-instance certificates decide optimality for each observed instance exactly; reach over 'all matrices' is by sampling.",
+   note="Trusted base: numpy SVD/lstsq; NNLS optimum by enumeration (n<=8). Rank-deficient and kappa>1e10 instances skipped. Known finding F13 (scipy NNLS) is attributed only when clp is bit-equal to scipy's own answer in the stated regime.",
+   technique="runtime monitoring: icontract postconditions on the real functions + per-instance optimality certificates (KKT / orthogonality) and independent optimum"),
 }
